@@ -11,9 +11,9 @@ import RTV.Gen.ReTables
   pv <culture> <p> <tok;tok;…>             -> neg coeff exp | err             __get_point_value
   digit <culture> <p> <handle> <m;m;…>     -> neg coeff exp | err             _digit_number_parse
   text <culture> <p> <handle>              -> neg coeff exp | err             _text_number_parse
-  pow <culture> <p> <text>                 -> neg coeff exp | err             _power_number_parse
+  pow <culture> <fx> <p> <text>            -> neg coeff exp | err             _power_number_parse (fx = 1: X10^ -> E variant)
   frac <culture> <p> <text> <rm>           -> D neg coeff exp | F repr | err  _frac_like_number_parse
-  parse <culture> <p> <num|pct> <supported;…> <type> <data|none> <text> <negLen|none> <lowered> <halfDozen>
+  parse <culture> <fx> <p> <num|pct> <supported;…> <type> <data|none> <text> <negLen|none> <lowered> <halfDozen>
         <m;m;…> <rm>                       -> none | <val>|<resolution> | err BaseNumberParser / BasePercentageParser.parse
   cfg <culture>                            -> marker|fracSep;…|oneHalf;…|langMarker|wordSep|matchLen|loose
 rm = `none` or whole|multiplier|0/1.  Strings are code points; lists are `;`-joined (empty field = empty list). -/
@@ -103,7 +103,7 @@ def hText : Handler
   | _ => "bad-op"
 
 def hPow : Handler
-  | [cu, p, t] => withCfg cu fun c => showDecE (powerNumberParse (parseNat p) pyDigits c.sep.decSep (parseCps t))
+  | [cu, fx, p, t] => withCfg cu fun c => showDecE (powerNumberParse (parseBool fx) (parseNat p) pyDigits c.sep.decSep (parseCps t))
   | _ => "bad-op"
 
 def hFrac : Handler
@@ -114,12 +114,12 @@ def hFrac : Handler
   | _ => "bad-op"
 
 def hParse : Handler
-  | [cu, p, kind, supported, ty, data, text, negLen, lowered, halfDozen, ms, rm] => withCfg cu fun c =>
+  | [cu, fx, p, kind, supported, ty, data, text, negLen, lowered, halfDozen, ms, rm] => withCfg cu fun c =>
     let aux : Aux := ⟨if negLen == "none" then none else some (parseNat negLen), parseCps lowered, parseCps halfDozen,
       parseList ms, parseRm rm⟩
     let d : Option Str := if data == "none" then none else some (parseCps data)
     let f := if kind == "pct" then percentParse else NumFrac.parse
-    match f (parseNat p) pyDigits reTok pySpace c (lfOf cu) (parseList supported) (parseCps ty) d (parseCps text) aux with
+    match f (parseBool fx) (parseNat p) pyDigits reTok pySpace c (lfOf cu) (parseList supported) (parseCps ty) d (parseCps text) aux with
     | .ok none => "none"
     | .ok (some (v, res)) => showVal v ++ "|" ++ showCps res
     | .error e => showFErr e
